@@ -87,6 +87,10 @@ def buck4(A, rho, C, r_detach, r_min, r_attach):
   :param r_attach: End of splined region.
 
   :return: Splined potential."""
+  # The same constraint as for the documented long form spline(as.buck A rho 0 >r_detach buck4_spline r_min >r_attach as.buck 0 1 C)
+  if not (r_detach < r_min < r_attach):
+    raise ValueError("buck4 requires r_detach < r_min < r_attach, the values given were r_detach = {}, r_min = {}, r_attach = {}".format(r_detach, r_min, r_attach))
+
   bm = bornmayer(A,rho)
   disp = buck(0.0, 1.0, C)
 
